@@ -65,6 +65,7 @@ def run(ctx):
     nrand = 2000 if q else 100000
     stats = {}
     enum_all, rnd, res, total_enum, bounds_all = [], [], [], 0, []
+    total_pad, pad_all = 0, []
 
     for name, nalpha, maxlen, mc_cfg, gen_cfg, trace_cfg, fsmax, nchunks in spaces:
         # 1. the specification: Impl = Ref, containment, CleanImpl = CleanRef for every token string <= MaxLen
@@ -88,8 +89,26 @@ def run(ctx):
         out = ctx.sub("traces_" + name)
         nr = nrand if name == "wide" else 0
         lib.run_driver(drv, ["-bounds", bounds, "-out", out, "-chunks", nchunks, "-rand", nr, "-seed", ctx.seed,
-                             "-fsmax", fsmax, "-randper", 500 if q else 2500, "-par", 4 if q else 16], timeout=1800)
+                             "-fsmax", fsmax, "-randper", 500 if q else 2500, "-par", 4 if q else 16,
+                             "-padchunks", 2 if q else 8], timeout=1800)
         enum = sorted(glob.glob(os.path.join(out, "trace_*.ndjson")))
+        # padded targets (> 128 bytes): per pad, the chunks tile the cores 0 .. padTotal-1
+        pads = sorted(glob.glob(os.path.join(out, "pad_*.ndjson")))
+        npad = 0
+        for pi, pad in enumerate(b["pads"] if b["padTotal"] > 0 else []):
+            at = 0
+            for h in _headers([t for t in pads if os.path.basename(t).startswith("pad_%d_" % pi)]):
+                if h["mode"] != "pad" or h["rank"] != at or h["pre"] != pad["pre"] or h["post"] != pad["post"]:
+                    raise lib.Infra("pad chunks do not tile the cores: %s at rank %d" % (str(h)[:200], at))
+                at += h["n"]
+            if at != b["padTotal"]:
+                raise lib.Infra("pad %d chunks cover %d of %d cores" % (pi, at, b["padTotal"]))
+            npad += at
+        if b["padTotal"] <= 0 and pads:
+            raise lib.Infra("unexpected pad files")
+        if b["padTotal"] > 0 and (len(b["pads"]) < 4 or min(sum(len(t) for t in x["pre"] + x["post"]) for x in b["pads"]) < 126):
+            raise lib.Infra("pads of the specification are not long enough to leave CleanPath's stack buffer")
+        total_pad += npad
         rn = sorted(glob.glob(os.path.join(out, "rand_*.ndjson")))
         st = json.load(open(os.path.join(out, "stats.json")))
         # the chunks tile the enumeration 0 .. Total-1 (inside a chunk the trace spec checks in' = Succ(in))
@@ -103,21 +122,24 @@ def run(ctx):
         hr = _headers(rn)
         if sum(h["n"] for h in hr) != nr or any(h["mode"] != "free" or h["fsmax"] != fsmax for h in hr):
             raise lib.Infra("random chunks do not hold the %d requested targets" % nr)
-        if st["Cases"] + st["Panics"] < total + nr:
-            raise lib.Infra("driver ran %d cases, expected %d" % (st["Cases"], total + nr))
+        if st["VHost"] == 0:
+            raise lib.Infra("no request went through the vhost-rewriting file handler")
+        if st["Cases"] + st["Panics"] < total + nr + npad:
+            raise lib.Infra("driver ran %d cases, expected %d" % (st["Cases"], total + nr + npad))
         for k2, v in st.items():
             stats[k2] = stats.get(k2, 0) + v
         total_enum += total
 
         # 4. validate every recorded line
-        res += lib.validate(ctx, MODULE, trace_cfg, enum + rn, timeout=3000, par=lib.NCPU)
+        res += lib.validate(ctx, MODULE, trace_cfg, enum + rn + pads, timeout=3000, par=lib.NCPU)
+        pad_all += pads
         enum_all += enum
         rnd += rn
 
     lib.spec_check(ctx, "PathNorm", "PathNorm_mc_win.cfg", workers=4, timeout=600, env=GCENV,
                    note="BackslashSep = TRUE (Windows build), strings <= 5")
     enum = enum_all
-    b = {"spaces": bounds_all, "total": total_enum, "randMin": bounds_all[0]["randMin"], "randMax": bounds_all[0]["randMax"]}
+    b = {"spaces": bounds_all, "total": total_enum, "padded": total_pad, "pad_files": pad_all, "randMin": bounds_all[0]["randMin"], "randMax": bounds_all[0]["randMax"]}
     maxlen = "/".join(str(x["maxlen"]) for x in bounds_all)
     fsmax = "/".join(str(x["fsmax"]) for x in bounds_all)
 
@@ -134,7 +156,8 @@ def run(ctx):
     if ctx.violations:
         lib.log("violations confirmed; binding self-tests skipped")
         return _evidence(ctx, b, stats, enum, rnd, maxlen, nrand, fsmax)
-    clean = [t for t, bad in res if not bad and os.path.basename(t).startswith("trace_") and "traces_wide" in t]
+    clean = [t for t, bad in res if not bad and os.path.basename(t) == "trace_000.ndjson" and "traces_wide" in t] + \
+            [t for t, bad in res if not bad and os.path.basename(t).startswith("trace_") and "traces_wide" in t]
     if not clean:
         raise lib.Infra("no enumeration trace file without rejected lines to run the binding self-tests on")
     st_file = clean[0]
@@ -177,10 +200,16 @@ def run(ctx):
                 if r["ev"] == "Norm":
                     norm = r["out"]
                 if r["ev"] == "Clean":
-                    out.append({"ev": "Served", "path": norm, "status": 404, "sentinel": False})
+                    out.append({"ev": "Served", "path": norm, "status": 404, "sentinel": False, "vh": []})
             recs = out
         i = nth(recs, "Served", n=25)
         recs[i] = dict(recs[i], sentinel=True)
+        return recs
+
+    def vhost_sentinel(recs):  # ... or through the handler behind NewVHostPathRewriter with Host ".."
+        recs = prefix(recs)
+        i = nth(recs, "Served", lambda r: len(r["vh"]) > 0, 3)
+        recs[i] = dict(recs[i], vh=[True] + recs[i]["vh"][1:])
         return recs
 
     def clean_escapes(recs):  # CleanPath returned a path that climbs
@@ -192,15 +221,36 @@ def run(ctx):
     for name, m in (("URI.Path() reported unresolved for one target", undecoded),
                     ("one enumerated target dropped from the recording", drop_case),
                     ("sentinel outside the root served once", sentinel),
+                    ("sentinel served once through the vhost-rewriting handler", vhost_sentinel),
                     ("CleanPath result with a '..' segment", clean_escapes)):
         lib.self_test(ctx, MODULE, CFG, st_file, m, ncases=ncase, name=name)
+
+    # ... and on a padded (> 128 bytes) recording: CleanPath lost the prefix it had already accepted
+    cpad = [t for t, bad in res if not bad and os.path.basename(t).startswith("pad_0_")]
+    if b["padded"] and not cpad:
+        raise lib.Infra("no padded trace file without rejected lines to run the binding self-test on")
+    if cpad:
+        def lost_prefix(recs):
+            recs = prefix(recs)
+            i = nth(recs, "Clean", lambda r: len(r["out"]) > 128, 3)
+            recs[i] = dict(recs[i], out=["<00>"] * 20 + recs[i]["out"][20:])
+            return recs
+        pl = lib.read_lines(cpad[0])
+        pidx = [i for i, l in enumerate(pl) if '"ev":"Case"' in l]
+        pn = min(60, len(pidx) - 1)
+        okp = os.path.join(ctx.scratch, "selftest_padbase.ndjson")
+        _w(okp, prefix([json.loads(l) for l in pl[:pidx[pn]]]))
+        if lib.validate(ctx, MODULE, "PathNormTrace_deep.cfg", [okp], count=False)[0][1]:
+            raise lib.Infra("self-test base (uncorrupted padded prefix) was rejected")
+        lib.self_test(ctx, MODULE, "PathNormTrace_deep.cfg", cpad[0], lost_prefix, ncases=pn,
+                      name="CleanPath result of a >128-byte target starts with NUL bytes")
 
     _evidence(ctx, b, stats, enum, rnd, maxlen, nrand, fsmax)
 
 
 def _evidence(ctx, b, stats, enum, rnd, maxlen, nrand, fsmax):
     samples = []
-    for t in [enum[len(enum) // 3], enum[-1]] + rnd[:1]:
+    for t in [enum[len(enum) // 3], enum[-1]] + rnd[:1] + b["pad_files"][-1:]:
         tl = lib.read_lines(t)
         s, e = lib.case_at(tl, min(len(tl) - 1, 2000))
         samples.append({"file": os.path.basename(os.path.dirname(t)) + "/" + os.path.basename(t),
@@ -214,14 +264,18 @@ def _evidence(ctx, b, stats, enum, rnd, maxlen, nrand, fsmax):
         "exhaustive": True,
         "traces_validated_against_impl": stats["Cases"],
         "samples": samples,
+        "fs_vhost_rewriter_requests": stats["VHost"],
         "fs_requests": stats["Served"], "fs_200": stats["Served200"], "fs_sentinel_served": stats["Sentinel"],
-        "enumerated": b["total"], "random": nrand,
+        "enumerated": b["total"], "random": nrand, "padded_over_128_bytes": b["padded"],
         "spaces": [{"space": x["space"], "alphabet": x["alphabet"], "max_tokens": x["maxlen"], "strings": x["total"],
                     "fs_for_len_le": x["fsmax"]} for x in sp],
         "rule": "Two spaces are enumerated completely, in shortlex order, by the driver (the trace spec re-derives the "
                 "order with Succ/Rank per chunk and python checks that the chunks tile 0..Total-1): " +
                 "; ".join("%s = every token string of length 0..%d over %s (%d strings)" %
                           (x["space"], x["maxlen"], " ".join(x["alphabet"]), x["total"]) for x in sp) +
+                "; plus every string of the deep space up to %d tokens wrapped in each of the 4 long pads of PathNorm!Pads "
+                "(targets of 126..140 bytes, i.e. beyond CleanPath's 128-byte stack buffer, with the modification point "
+                "behind, before and around byte 128; %d targets, order and completeness checked per pad)"
                 "; plus %d seeded random strings of %d..%d tokens over the 10-token alphabet (adds %%2E %%252e %%2F; every "
                 "other one over a random 2..5-token sub-alphabet). Each target is run through URI.Parse(host,target)"
                 ".Path() (pooled URI with host / fresh URI without), utils.CleanPath and (enumerated strings up to %s "
@@ -231,7 +285,7 @@ def _evidence(ctx, b, stats, enum, rnd, maxlen, nrand, fsmax):
                 "driver measured that Path() has fewer '/' than the target has slashes (raw or written %%2f/%%2F), i.e. "
                 "the normaliser dropped or popped at least one segment (path_differs_from_target counts the weaker "
                 "'anything was decoded or removed')."
-                % (nrand, b["randMin"], b["randMax"], fsmax, sp[0]["maxlen"]),
+                % (sp[-1]["padMax"], b["padded"], nrand, b["randMin"], b["randMax"], fsmax, sp[0]["maxlen"]),
     })
     ctx.assumptions += [
         "unix build (filepath.Separator = '/'): a backslash is an ordinary byte; the Windows branch is model-checked in "
